@@ -392,6 +392,10 @@ pub struct Expect {
     pub read_failures_in_format_all: usize,
     /// every reason for a non-zero status in the model is such a read failure
     pub only_read_failures: bool,
+    /// inputs the model read successfully, in processing order (root-relative; "<stdin>" for standard input)
+    pub considered: Vec<String>,
+    /// inputs whose reading / writing fails in the model
+    pub errors: usize,
 }
 
 pub struct Parsed {
@@ -609,8 +613,9 @@ pub fn model_step(state: &BTreeMap<String, ModelFile>, step: &Step) -> Expect {
                     None => {
                         ex.dont_know = Some("library panicked".into());
                     }
-                    Some(None) => {}
+                    Some(None) => ex.considered.push(rel.clone()),
                     Some(Some(y)) => {
+                        ex.considered.push(rel.clone());
                         if y != text {
                             changed += 1;
                             if !p.check {
@@ -629,6 +634,7 @@ pub fn model_step(state: &BTreeMap<String, ModelFile>, step: &Step) -> Expect {
     } else if p.inputs.is_empty() {
         // stdin
         let text = step.stdin.clone().unwrap_or_default();
+        ex.considered.push("<stdin>".into());
         match lib(&text) {
             None => ex.dont_know = Some("library panicked".into()),
             Some(None) => {
@@ -656,7 +662,10 @@ pub fn model_step(state: &BTreeMap<String, ModelFile>, step: &Step) -> Expect {
             };
             match model_read(&st, &rel) {
                 ReadResult::Fail => errors += 1,
-                ReadResult::Ok(text) => match lib(&text) {
+                ReadResult::Ok(text) => match lib(&{
+                    ex.considered.push(rel.clone());
+                    text.clone()
+                }) {
                     None => ex.dont_know = Some("library panicked".into()),
                     Some(None) => {
                         if !p.check && !p.inplace {
@@ -690,6 +699,7 @@ pub fn model_step(state: &BTreeMap<String, ModelFile>, step: &Step) -> Expect {
         ex.stdout = if !p.check && !p.inplace { Some(stdout.clone()) } else { None };
     }
     ex.changed = changed;
+    ex.errors = errors;
     ex.only_read_failures = errors > 0 && errors == ex.read_failures_in_format_all && !(p.check && changed > 0);
     ex.exit = if errors > 0 {
         1
@@ -711,6 +721,8 @@ pub struct Outcome {
     pub dont_know: Vec<String>,
     pub files_written: usize,
     pub files_checked_untouched: usize,
+    /// inputs whose check status was compared with the front-end's own plain output
+    pub self_judged: usize,
 }
 
 fn has_marker(hay: &[u8]) -> Option<String> {
@@ -733,7 +745,7 @@ pub fn run_scenario(sc: &Scenario, prop: &str, use_strace: bool) -> Option<Outco
             state.entry(anc).or_insert(ModelFile { kind: Kind::Dir, content: vec![], mode: 0o755 });
         }
     }
-    let mut out = Outcome { violations: vec![], steps_run: 0, syscalls: 0, dont_know: vec![], files_written: 0, files_checked_untouched: 0 };
+    let mut out = Outcome { violations: vec![], steps_run: 0, syscalls: 0, dont_know: vec![], files_written: 0, files_checked_untouched: 0, self_judged: 0 };
     for (si, step) in sc.steps.iter().enumerate() {
         let before = snapshot(&sb.root);
         let ex = model_step(&state, step);
@@ -848,6 +860,50 @@ pub fn run_scenario(sc: &Scenario, prop: &str, use_strace: bool) -> Option<Outco
                 ),
             ));
         }
+        // --- check mode against the front-end's own output: "differs from its formatted form" decided by what the same
+        // binary prints for the same input and style options (no library in this oracle)
+        if prop == "C14" && p.check && ex.dont_know.is_none() && res.code.is_some() {
+            let mut style: Vec<String> = vec!["-c".into(), p.cfg.width.to_string(), "-t".into(), p.cfg.tab.to_string()];
+            if p.cfg.reorder {
+                style.push("--reorder-import-items".into());
+            }
+            let mut differs = 0usize;
+            let mut judged = 0usize;
+            let mut harness_trouble = false;
+            for rel in &ex.considered {
+                let (plain, content): (Step, Vec<u8>) = if rel == "<stdin>" {
+                    let t = step.stdin.clone().unwrap_or_default();
+                    (Step { args: style.clone(), stdin: Some(t.clone()), cwd: String::new() }, t.into_bytes())
+                } else {
+                    let Some(c) = before.get(rel).and_then(|e| e.content.clone()).or_else(|| std::fs::read(sb.root.join(rel)).ok()) else { continue };
+                    let mut a = style.clone();
+                    a.push(rel.clone());
+                    (Step { args: a, stdin: None, cwd: String::new() }, c)
+                };
+                let r2 = run_cli(&sb, &plain, false);
+                if r2.code != Some(0) {
+                    harness_trouble = true;
+                    break;
+                }
+                judged += 1;
+                if r2.stdout != content {
+                    differs += 1;
+                }
+            }
+            if !harness_trouble {
+                out.self_judged += judged;
+                let want = if ex.errors > 0 || differs > 0 { 1 } else { 0 };
+                if res.code != Some(want) && !(ex.read_failures_in_format_all > 0) {
+                    out.violations.push((
+                        "check-status-vs-own-output".into(),
+                        format!(
+                            "{}: exit status {:?}, but the same binary without --check prints text that differs from {} of the {} readable input(s) ({} input(s) fail to read): expected {}",
+                            tag, res.code, differs, judged, ex.errors, want
+                        ),
+                    ));
+                }
+            }
+        }
         // advance the model with what really is on disk (so that one violation is reported once)
         for (rel, a) in &after {
             if let Some(m) = state.get_mut(rel) {
@@ -903,6 +959,9 @@ fn body(class: &str, rng: &mut Rng) -> Vec<u8> {
         "formatted-crlf" => format!("#let {} = 1\r\n\r\nText {} here.\r\n", m.to_lowercase(), m).into_bytes(),
         // already formatted, except that the import items are not sorted: changed iff --reorder-import-items is given
         "formatted-unsorted-imports" => format!("#import \"lib.typ\": zeta, alpha, mid\n\nText {} here.\n", m).into_bytes(),
+        // a byte order mark in front of otherwise formatted / unformatted text (text for the parser)
+        "bom-formatted" => format!("{}Text {} here.\n\n#let {} = 1\n", '\u{feff}', m, m.to_lowercase()).into_bytes(),
+        "bom-unformatted" => format!("{}#let   {}   =  1\nText {} here.\n", '\u{feff}', m.to_lowercase(), m).into_bytes(),
         // blank-only documents (the formatter's smallest outputs)
         "blank-only" => (*rng.pick(&["\n", "  ", "\t\n", " \n", "\n\n", " \n \n"])).as_bytes().to_vec(),
         "empty" => vec![],
@@ -910,7 +969,7 @@ fn body(class: &str, rng: &mut Rng) -> Vec<u8> {
     }
 }
 
-const CLASSES: [&str; 15] = ["formatted", "unformatted", "unformatted", "erroneous", "invalid-utf8", "unreadable", "unwritable", "crlf", "empty", "formatted-nofinalnl-unformatted", "formatted-crlf", "formatted-nofinalnl-unformatted", "formatted-unsorted-imports", "formatted-unsorted-imports", "blank-only"];
+const CLASSES: [&str; 17] = ["bom-formatted", "bom-unformatted", "formatted", "unformatted", "unformatted", "erroneous", "invalid-utf8", "unreadable", "unwritable", "crlf", "empty", "formatted-nofinalnl-unformatted", "formatted-crlf", "formatted-nofinalnl-unformatted", "formatted-unsorted-imports", "formatted-unsorted-imports", "blank-only"];
 
 fn style_args(rng: &mut Rng) -> Vec<String> {
     let mut v = vec![];
@@ -1044,7 +1103,7 @@ pub fn gen_step(files: &[FileSpec], prop: &str, rng: &mut Rng) -> Step {
             if !style_first {
                 args.extend(style.clone());
             }
-            let text = String::from_utf8_lossy(&body(*rng.pick(&["formatted", "unformatted", "erroneous", "crlf", "empty", "formatted-nofinalnl-unformatted", "formatted-crlf"]), rng)).to_string();
+            let text = String::from_utf8_lossy(&body(*rng.pick(&["formatted", "unformatted", "erroneous", "crlf", "empty", "formatted-nofinalnl-unformatted", "formatted-crlf", "bom-formatted", "bom-unformatted", "blank-only"]), rng)).to_string();
             Step { args, stdin: Some(text), cwd }
         }
         2 | 3 => {
@@ -1268,6 +1327,7 @@ fn account(acc: &mut Acc, sc: &Scenario, out: &Outcome, nontrivial: bool) {
     acc.count("strace_lines_logged", out.syscalls);
     acc.count("files_verified_written_with_library_bytes", out.files_written as u64);
     acc.count("path_snapshots_verified_untouched", out.files_checked_untouched as u64);
+    acc.count("check_statuses_compared_with_the_binary's_own_plain_output(inputs)", out.self_judged as u64);
     for d in &out.dont_know {
         acc.count(&format!("model_dont_know[{}]", util::clip(d, 40)), 1);
     }
@@ -1401,6 +1461,8 @@ pub fn run(prop: &str, tier: Tier) -> (RunMeta, Acc) {
                 (" \n \n", "blank-only lines"),
                 ("#import \"lib.typ\": zeta, alpha, mid\n", "formatted apart from import order"),
                 ("Text.", "formatted apart from the final newline"),
+                ("\u{feff}= Title\n\nText.\n", "byte order mark, otherwise formatted"),
+                ("\u{feff}#let   x=1\n", "byte order mark, unformatted"),
             ] {
                 cases.push(crate::engine::Case::new(t, o));
                 n_special += 1;
@@ -1514,4 +1576,132 @@ pub fn repair_f14(input: &str) -> Option<String> {
     } else {
         None
     }
+}
+
+
+// ------------------------------------------------------------------------------------------------
+// C11 through the command line: several documents formatted by ONE process (file list, format-all), so that whatever the
+// front-end keeps between documents takes part; the rule is the library's: non-empty, final line feed, no blank at a line end.
+
+const HYGIENE_DOCS: [&str; 22] = [
+    "\n", "  ", "\t\n", " \n", " \n \n", "\n\n", "\u{a0}\n", "",
+    "#let a = 0\n", "#let   b=1", "text   \nmore\t\n", "// only a comment", "/* block */  ", "= Title  \n\n\n",
+    "```\nraw  \n```", "#f(  )  \n  ", "- item\n\n", "$ x $ \n", "a \\\n", "#[\n]\n \n", "text\r\n", "#let s = \"a\"  \n\n\n   ",
+];
+
+fn hygiene_scenario(i: u64) -> Scenario {
+    let mut rng = Rng::new(i ^ 0xC11);
+    let n = 2 + rng.below(5);
+    let mut files = vec![];
+    for k in 0..n {
+        // blank-only documents more often than the rest
+        let d = if rng.chance(1, 2) { HYGIENE_DOCS[rng.below(8)] } else { HYGIENE_DOCS[rng.below(HYGIENE_DOCS.len())] };
+        let dir = *rng.pick(&["", "", "sub/"]);
+        files.push(FileSpec { rel: format!("{}f{}.typ", dir, k), kind: Kind::File, content: d.as_bytes().to_vec(), mode: 0o644, class: "hygiene".into() });
+    }
+    let style = style_args(&mut rng);
+    let mut names: Vec<String> = files.iter().map(|f| f.rel.clone()).collect();
+    rng.shuffle(&mut names);
+    let mut steps = vec![];
+    // stdout, the files in a seed-chosen order
+    let mut a = style.clone();
+    a.extend(names.clone());
+    steps.push(Step { args: a, stdin: None, cwd: String::new() });
+    // in place (or format-all), same process for all files
+    if rng.chance(1, 2) {
+        let mut a = vec!["-i".to_string()];
+        a.extend(style.clone());
+        a.extend(names.clone());
+        steps.push(Step { args: a, stdin: None, cwd: String::new() });
+    } else {
+        let mut a = style.clone();
+        a.push("format-all".into());
+        steps.push(Step { args: a, stdin: None, cwd: String::new() });
+    }
+    Scenario { files, steps }
+}
+
+/// Runs the scenario; returns (documents judged, first violation).
+fn hygiene_check(sc: &Scenario) -> Option<(u64, Option<String>)> {
+    let sb = materialise(sc)?;
+    let mut judged = 0u64;
+    let wellformed: Vec<bool> = sc.files.iter().map(|f| std::str::from_utf8(&f.content).map(|t| !typst_syntax::parse(t).erroneous()).unwrap_or(false)).collect();
+    for (si, step) in sc.steps.iter().enumerate() {
+        let res = run_cli(&sb, step, false);
+        res.code?;
+        let cmd = format!("typstyle {}", step.args.join(" "));
+        if si == 0 {
+            // stdout: the concatenation of the formatted documents; all inputs here are well-formed
+            if wellformed.iter().all(|&w| w) {
+                judged += 1;
+                let out = String::from_utf8_lossy(&res.stdout).to_string();
+                if let Some(d) = crate::treeprops::hygiene_violation(&out) {
+                    return Some((judged, Some(format!("step {} `{}`: standard output: {}", si, cmd, d))));
+                }
+            }
+        } else {
+            for (f, &w) in sc.files.iter().zip(&wellformed) {
+                if !w {
+                    continue;
+                }
+                let Ok(now) = std::fs::read(sb.root.join(&f.rel)) else { continue };
+                judged += 1;
+                let now = String::from_utf8_lossy(&now).to_string();
+                if let Some(d) = crate::treeprops::hygiene_violation(&now) {
+                    return Some((judged, Some(format!("step {} `{}`: {} afterwards: {}", si, cmd, f.rel, d))));
+                }
+            }
+        }
+    }
+    Some((judged, None))
+}
+
+pub fn run_hygiene(tier: Tier, seed: u64, acc: &mut Acc) {
+    if !cli_bin().exists() {
+        acc.inconclusive("cli-binary-missing(front-end hygiene skipped)");
+        return;
+    }
+    let n: u64 = if tier == Tier::Quick { 150 } else { 3000 };
+    use rayon::prelude::*;
+    let base = seed.wrapping_mul(7919);
+    let accs: Vec<Acc> = (0..n)
+        .into_par_iter()
+        .map(|k| {
+            let mut a = Acc::new();
+            let i = base.wrapping_add(k) % 100_000;
+            let sc = hygiene_scenario(i);
+            match hygiene_check(&sc) {
+                None => a.inconclusive("cli-harness-error"),
+                Some((judged, v)) => {
+                    a.evaluations += judged;
+                    a.count("front_end_documents_judged", judged);
+                    a.count("front_end_invocations", sc.steps.len() as u64);
+                    match v {
+                        None => {
+                            a.held += judged;
+                            a.nontrivial.insert(util::hash64_parts(&["front-end", &i.to_string()]));
+                        }
+                        Some(detail) => a.violations.push(Violation {
+                            property: "C11".into(),
+                            input: serde_json::to_string(&sc.to_json()).unwrap(),
+                            cfg: None,
+                            origin: format!("G-HYGIENE#{}", i),
+                            oracle: "front-end-hygiene".into(),
+                            detail,
+                            extra: Value::Null,
+                        }),
+                    }
+                }
+            }
+            a
+        })
+        .collect();
+    for a in accs {
+        acc.merge(a);
+    }
+}
+
+pub fn hygiene_violated(input: &str) -> Option<bool> {
+    let sc = Scenario::from_json(&serde_json::from_str(input).ok()?)?;
+    Some(hygiene_check(&sc)?.1.is_some())
 }
